@@ -842,15 +842,30 @@ def _pos_dy(rng, hi=8.0, bits=3):
     return rng.randint(1, int(hi * q)) / q
 
 
-def gen_spec(rng, regime, allow_left=False, kinds=None):
-    """random cell definition. regime: 'grid' | 'float'."""
+def gen_spec(rng, regime, allow_left=False, kinds=None, origin=None, ints=None, nonzero_origin=False):
+    """random cell definition. regime: 'grid' | 'float'.  origin: True / False = with / without the optional origin
+    (None: random); ints: integer-valued definition given as python ints (integer arrays with container 'array')."""
     kind = rng.choice(kinds or ['vects', 'vectors', 'lengths', 'hilos', 'abc', 'lengths', 'hilos'])
     via = rng.choice(['ctor', 'set', 'method'])
     g = regime == 'grid'
-    num = (lambda lo, hi: _dy(rng, lo, hi)) if g else (lambda lo, hi: rng.uniform(lo, hi))
-    pos = (lambda hi=8.0: _pos_dy(rng, hi)) if g else (lambda hi=8.0: rng.uniform(0.5, hi))
-    origin = [num(-8, 8) for _ in range(3)] if rng.random() < 0.7 else None
+    ints = g and (rng.random() < 0.15 if ints is None else ints)   # python ints / integer arrays instead of floats
+    if ints:
+        num = lambda lo, hi: rng.randint(int(lo), int(hi))          # noqa: E731
+        pos = lambda hi=8.0: rng.randint(1, int(hi))                # noqa: E731
+    else:
+        num = (lambda lo, hi: _dy(rng, lo, hi)) if g else (lambda lo, hi: rng.uniform(lo, hi))
+        pos = (lambda hi=8.0: _pos_dy(rng, hi)) if g else (lambda hi=8.0: rng.uniform(0.5, hi))
+    origin_req = origin
+    if origin is None:
+        origin = rng.random() < 0.7
+    origin = [num(-8, 8) for _ in range(3)] if origin else None
+    if origin is not None and nonzero_origin:
+        while any(x == 0 for x in origin):
+            origin = [num(-8, 8) for _ in range(3)]
     spec = {'kind': kind, 'via': via, 'regime': regime}
+    if ints:
+        spec['ints'] = True
+    zero = 0 if ints else 0.0
     if rng.random() < 0.3:
         spec['container'] = 'array'
     if kind in ('vects', 'vectors'):
@@ -858,7 +873,7 @@ def gen_spec(rng, regime, allow_left=False, kinds=None):
             if rng.random() < 0.35:      # rotated / sheared general cell
                 V = [[num(-4, 4) for _ in range(3)] for _ in range(3)]
             else:                         # lower-triangular with a row permutation / sign pattern
-                V = [[pos(), 0.0, 0.0], [num(-4, 4), pos(), 0.0], [num(-4, 4), num(-4, 4), pos()]]
+                V = [[pos(), zero, zero], [num(-4, 4), pos(), zero], [num(-4, 4), num(-4, 4), pos()]]
                 if rng.random() < 0.5:
                     cols = rng.choice([[0, 1, 2], [1, 2, 0], [2, 0, 1]])
                     V = [[r[c] for c in cols] for r in V]
@@ -871,6 +886,12 @@ def gen_spec(rng, regime, allow_left=False, kinds=None):
                 np = _np()
                 if np.linalg.cond(np.array(V)) > 200:
                     continue
+                if rng.random() < 0.1:        # entries around the setter's clean-up threshold (1e-9 of the largest)
+                    big = max(abs(x) for r in V for x in r)
+                    for _ in range(rng.randint(1, 2)):
+                        V[rng.randrange(3)][rng.randrange(3)] = rng.choice([-1, 1]) * big * 10 ** rng.uniform(-12, -7)
+                    if abs(np.linalg.det(np.array(V))) < 1e-3 * big ** 3 or np.linalg.det(np.array(V)) < 0 and not allow_left:
+                        continue
             break
         if kind == 'vects':
             kw = {'vects': V}
@@ -892,9 +913,13 @@ def gen_spec(rng, regime, allow_left=False, kinds=None):
         for t in ('xy', 'xz', 'yz'):
             if rng.random() < 0.75:
                 kw[t] = num(-4, 4)
-    else:
-        kw, fam = gen_abc(rng, g)
-        if fam is not None and rng.random() < 0.5:
+    if kind in ('lengths', 'hilos') and not g and rng.random() < 0.08:     # a tilt around the clean-up threshold
+        big = max(abs(kw.get(k, 0.0)) for k in ('lx', 'ly', 'lz', 'xy', 'xz', 'yz')) if kind == 'lengths' else \
+            max(kw['xhi'] - kw['xlo'], kw['yhi'] - kw['ylo'], kw['zhi'] - kw['zlo'], *(abs(kw.get(k, 0.0)) for k in ('xy', 'xz', 'yz')))
+        kw[rng.choice(['xy', 'xz', 'yz'])] = rng.choice([-1, 1]) * big * 10 ** rng.uniform(-12, -7)
+    if kind == 'abc':
+        kw, fam = gen_abc(rng, g, ints)
+        if fam is not None and rng.random() < 0.5 and origin_req is not True:
             spec['via'] = 'family'
             spec['family'], spec['fargs'] = fam
             origin = None
@@ -1032,47 +1057,57 @@ def scale_spec(spec, f):
     return out
 
 
-def gen_abc(rng, grid):
-    """a, b, c and a realisable angle triple; sometimes one of the crystal families."""
-    L = (lambda: _pos_dy(rng, 8.0)) if grid else (lambda: rng.uniform(1.0, 8.0))
+def gen_abc(rng, grid, ints=False):
+    """a, b, c and a realisable angle triple; sometimes one of the crystal families; the optional angle keywords
+    in every combination (an omitted angle is the documented default 90)."""
+    if ints:
+        L = lambda: rng.randint(1, 8)                               # noqa: E731
+    else:
+        L = (lambda: _pos_dy(rng, 8.0)) if grid else (lambda: rng.uniform(1.0, 8.0))
     r = rng.random()
     if r < 0.45:
         name = rng.choice(list(FAMILY))
         a, b, c = L(), L(), L()
         while a == b or a == c:
-            b, c = L() + 0.125, L() + 0.25
+            b, c = L() + (1 if ints else 0.125), L() + (2 if ints else 0.25)
         if name == 'cubic':
             args = [a]
         elif name in ('hexagonal', 'tetragonal'):
             args = [a, c]
         elif name == 'trigonal':
-            args = [a, rng.choice([60.0, 75.5, 90.0, 100.0, 110.0, rng.uniform(30, 118)])]
+            args = [a, rng.choice([60, 75, 90, 100, 110] if ints else [60.0, 75.5, 90.0, 100.0, 110.0, rng.uniform(30, 118)])]
         elif name == 'orthorhombic':
             args = [a, b, c]
         elif name == 'monoclinic':
-            args = [a, b, c, rng.choice([100.0, 120.0, rng.uniform(91, 150)])]
+            args = [a, b, c, rng.choice([100, 120, 135] if ints else [100.0, 120.0, rng.uniform(91, 150)])]
         else:
-            al, be, ga = _angles(rng)
+            al, be, ga = _angles(rng, ints)
             while al == be or al == ga:
-                al, be, ga = _angles(rng)
+                al, be, ga = _angles(rng, ints)
             args = [a, b, c, al, be, ga]
-        kw = {k: float(v) for k, v in FAMILY[name](*args).items()}
+        kw = {k: (v if ints else float(v)) for k, v in FAMILY[name](*args).items()}
         return kw, (name, args)
     a, b, c = L(), L(), L()
-    al, be, ga = _angles(rng)
     kw = {'a': a, 'b': b, 'c': c}
-    # optional angles default to 90
-    if rng.random() < 0.8:
-        kw.update(alpha=al, beta=be, gamma=ga)
-    else:
-        kw.update(gamma=ga) if abs(ga - 90) < 60 else None
+    given = [k for k in ('alpha', 'beta', 'gamma') if rng.random() < (0.8 if rng.random() < 0.6 else 0.4)]
+    while True:
+        al, be, ga = _angles(rng, ints)
+        ang = {'alpha': al, 'beta': be, 'gamma': ga}
+        full = {k: (ang[k] if k in given else 90.0) for k in ang}
+        ca, cb, cg = (math.cos(math.radians(full[k])) for k in ('alpha', 'beta', 'gamma'))
+        if 1 - ca * ca - cb * cb - cg * cg + 2 * ca * cb * cg > 0.05:
+            break
+    kw.update({k: ang[k] for k in given})
     return kw, None
 
 
-def _angles(rng):
+def _angles(rng, ints=False):
     """realisable triple in (0,180), well inside the realisability region."""
     while True:
-        al, be, ga = (rng.choice([60.0, 90.0, 120.0, 75.0, 100.0, rng.uniform(40, 140)]) for _ in range(3))
+        if ints:
+            al, be, ga = (rng.choice([60, 90, 120, 75, 100, 45, 135]) for _ in range(3))
+        else:
+            al, be, ga = (rng.choice([60.0, 90.0, 120.0, 75.0, 100.0, rng.uniform(40, 140)]) for _ in range(3))
         ca, cb, cg = (math.cos(math.radians(x)) for x in (al, be, ga))
         vol2 = 1 - ca * ca - cb * cb - cg * cg + 2 * ca * cb * cg
         if vol2 > 0.05:
@@ -1112,6 +1147,7 @@ def gen_points(rng, V, o, regime, n, orth_exact=False):
 VARIANTS = ['list', 'tuple', 'array2', 'array3', 'array4', 'single-list', 'single-tuple', 'single-array', 'array33',
             'noncontig', 'fortran']
 VARIANTS_ALL = VARIANTS + ['empty', 'empty3']
+INT_VARIANTS = ['int-array', 'int-list', 'int-single', 'int-array3', 'int-tuple']     # integer-valued points only
 
 
 def shape_variant(rng, pts, name=None):
@@ -1144,6 +1180,19 @@ def shape_variant(rng, pts, name=None):
         return name, np.zeros((0, 3)), 0
     if name == 'empty3':
         return name, np.zeros((2, 0, 3)), 0
+    if name.startswith('int-'):          # python ints / integer dtype: the points must be integer-valued
+        ip = [[int(x) for x in p] for p in pts]
+        assert all(float(a) == b for p, q in zip(ip, pts) for a, b in zip(p, q)), 'int variant needs integer-valued points'
+        if name == 'int-array':
+            return name, np.array(ip, dtype=np.int64), n
+        if name == 'int-array3':
+            small = all(abs(x) < 2 ** 31 for q in ip for x in q)
+            return name, np.array(ip, dtype=np.int32 if small else np.int64).reshape(1, n, 3), n
+        if name == 'int-list':
+            return name, ip, n
+        if name == 'int-tuple':
+            return name, tuple(tuple(p) for p in ip), n
+        return name, ip[0], 1
     if name == 'single-list':
         return name, list(pts[0]), 1
     if name == 'single-tuple':
@@ -1263,6 +1312,9 @@ class _Scenario:
                     pts = [[self.rng.uniform(-2, 2) for _ in range(3)] for _ in range(n)]
             else:
                 pts = self._points(n)
+            if self.regime == 'grid' and self.rng.random() < 0.12:      # python ints / integer arrays
+                pts = [[float(self.rng.randint(-3, 3) if op == 'r2c' else self.rng.randint(-8, 12)) for _ in range(3)] for _ in range(n)]
+                variant = self.rng.choice(INT_VARIANTS)
         vname, arg, used = shape_variant(self.rng, pts, variant)
         f = self.box.position_relative_to_cartesian if op == 'r2c' else self.box.position_cartesian_to_relative
         try:
@@ -1293,6 +1345,9 @@ class _Scenario:
         np = _np()
         if pts is None:
             pts = self._points(self.rng.randint(1, 6))
+            if self.regime == 'grid' and self.rng.random() < 0.12:      # python ints / integer arrays
+                pts = [[float(self.rng.randint(-8, 12)) for _ in range(3)] for _ in pts]
+                variant = self.rng.choice(INT_VARIANTS)
         vname, arg, used = shape_variant(self.rng, pts, variant)
         res = {}
         for incl in (True, False):
@@ -1330,7 +1385,7 @@ class _Scenario:
 
 def _short(spec):
     return {k: v for k, v in spec.items() if k in ('kind', 'via', 'kw', 'family', 'fargs', 'container', 'regime', '_ok',
-                                                   'perturbed', 'alias')}
+                                                   'perturbed', 'alias', 'invalid', 'ints')}
 
 
 def _cond(model_vects, model_recip):
@@ -1464,6 +1519,24 @@ def _special_scenarios(ctx, rng):
     sc.read_bad_dim('r2c')
     sc.read_bad_dim('c2r')
     out.append(sc)
+    # --- an existing Box re-defined through every keyword family / method, with and without the optional origin ----
+    for k, regime in enumerate(['grid', 'float']):
+        sc = _Scenario(ctx, rng, regime, 20_100 + k)
+        sc.setter(gen_spec(rng, regime, origin=True, nonzero_origin=True, kinds=['vects', 'lengths']))
+        sc.all_reads()
+        order = list(REDEFINITIONS)
+        rng.shuffle(order)
+        for (kind, via, with_origin) in order:
+            if not with_origin and any(x == 0 for x in sc.box.origin):
+                o = [(_dy(rng, 1, 8) if regime == 'grid' else rng.uniform(1, 8)) * rng.choice([-1, 1]) for _ in range(3)]
+                sc.setter({'kind': 'attr_origin', 'via': 'attr', 'kw': {'origin': o}, 'regime': regime})
+            sc.setter(gen_redefinition(rng, regime, kind, via, with_origin))
+            sc.read_get()
+            if rng.random() < 0.5:
+                sc.read_conv('c2r')
+            else:
+                sc.read_inside(rng.choice(['inside', 'outside']))
+        out.append(sc)
     # --- non LAMMPS-normal, singular -------------------------------------------------------------------------
     sc = _Scenario(ctx, rng, 'grid', 20_001)
     sc.setter({'kind': 'vects', 'via': 'ctor', 'kw': {'vects': [[0.0, 2.0, 0.0], [0.0, 0.0, 2.0], [2.0, 0.0, 0.0]],
@@ -1516,7 +1589,11 @@ def correspond(ctx):
     for sc in scs:
         state = {}
         for (line, kind, impl, info) in sc.items:
-            _compare(ctx, sc, line, kind, impl, info, outs[k], state)
+            try:
+                _compare(ctx, sc, line, kind, impl, info, outs[k], state)
+            except Exception as e:  # noqa  (an observation the comparison cannot digest is a disagreement, not a crash)
+                ctx.disagree(f'{kind}:uncomparable', f'{line[:80]}: implementation {impl!r:.200}, model {outs[k][:120]} '
+                             f'({type(e).__name__}: {e})', _replay_of(sc, info, line, impl, outs[k]))
             k += 1
     ctx.extra['scenarios'] = len(scs)
 
@@ -1544,11 +1621,16 @@ def _compare(ctx, sc, line, kind, impl, info, out, state):
 
     if kind == 'set':
         state.clear()
+        state['set_ok'] = impl == 'ok' and out == 'ok'
+        if impl == 'ok' and out != 'ok' and info['history']:
+            info['history'][-1]['invalid'] = True      # accepted although outside the supported range (for the clause oracle)
         if impl != out:
             bad(f"set:{info['spec']['kind']}", f"{line.split()[0]} via {info['spec'].get('via')}: implementation "
                 f"{impl}, model {out}  [{_short(info['spec'])}]")
         return
     if kind == 'abcres':
+        if not state.get('set_ok'):
+            return          # the definition was refused by one side: reported by the `set` line
         if out.startswith('err:'):
             bad('abcres', f'model refused abc residual: {out}')
             return
@@ -1567,6 +1649,9 @@ def _compare(ctx, sc, line, kind, impl, info, out, state):
     if isinstance(impl, str) or out.startswith('err:'):
         if impl != out:
             bad(f'{kind}:error', f'{line[:80]} [{info.get("variant", "")}]: implementation {impl!r}, model {out}')
+        return
+    if not _all_finite({k: v for k, v in impl.items() if k != 'angles'} if isinstance(impl, dict) else impl):
+        bad(f'{kind}:non-finite', f'{line[:80]} [{info.get("variant", "")}]: implementation reports {impl!r}, model {out[:120]} after {_hist(info)}')
         return
     if kind == 'get':
         toks = out.split()
@@ -1685,6 +1770,16 @@ def _compare(ctx, sc, line, kind, impl, info, out, state):
         return
 
 
+def _all_finite(x):
+    if isinstance(x, dict):
+        return all(_all_finite(v) for v in x.values())
+    if isinstance(x, (list, tuple)):
+        return all(_all_finite(v) for v in x)
+    if isinstance(x, float):
+        return math.isfinite(x)
+    return True
+
+
 def _dyadic(x, bits=6, lim=1024):
     f = Fraction(x)
     return (f * (1 << bits)).denominator == 1 and abs(f) <= lim
@@ -1741,25 +1836,72 @@ def _impl_cond(box):
         return float('inf')
 
 
-def oracle_cell(ctx, spec, pts, rels, muts=(), light=False):
+def _state_repr(box):
+    """vects / origin of a Box for a message; never raises."""
+    try:
+        return f'vects {_np().asarray(box.vects).tolist()}, origin {_np().asarray(box.origin).tolist()}'
+    except Exception as e:  # noqa
+        return f'(state unreadable: {type(e).__name__}: {e})'
+
+
+def _raw_state(box):
+    """(vects, origin) as float arrays, or None if the getters raise / return something that is not 3x3 and 3."""
+    np = _np()
+    try:
+        V, o = np.array(box.vects, dtype=float), np.array(box.origin, dtype=float)
+    except Exception:  # noqa
+        return None
+    if V.shape != (3, 3) or o.shape != (3,):
+        return None
+    return V, o
+
+
+def _guarded(viol, box, what, f):
+    """run one block of clauses; an exception escaping it is an observation of the implementation (it raised, or it
+    returned something the exact oracle cannot digest — NaN, a wrong type, a wrong shape), reported with the input."""
+    import traceback
+    try:
+        f()
+        return True
+    except Exception as e:  # noqa
+        tb = traceback.extract_tb(e.__traceback__)
+        impl = [fr for fr in tb if '/atomman/' in fr.filename.replace('\\', '/')]
+        mine = [fr for fr in tb if fr.filename.endswith('c01.py')]
+        where = f'{mine[-1].name}:{mine[-1].lineno} `{(mine[-1].line or "")[:90]}`' if mine else ''
+        if impl:
+            viol('oracle:implementation-raised', f'{what}: atomman raised {type(e).__name__}: {e} in {impl[-1].name} '
+                 f'({impl[-1].filename.split("/atomman/")[-1]}:{impl[-1].lineno}) when the oracle evaluated {where}; {_state_repr(box)}')
+        else:
+            viol('oracle:unusable-observation', f'{what}: the implementation returned a value the clause oracle cannot evaluate '
+                 f'({type(e).__name__}: {e}) at {where}; {_state_repr(box)}')
+        return False
+
+
+def oracle_cell(ctx, spec, pts, rels, muts=(), light=False, check_base=True):
     """all clauses of C01 for one cell definition and then for the same Box *object* after each of `muts`.
     pts: Cartesian points (floats), rels: relative points.  An element of muts is a concrete setter spec or a
     request {'perturb': …} for a small change, made concrete on the live object (the replay stores the concrete one);
-    a spec may carry 'alias': the arrays handed to the setter / returned by the getters are scribbled on afterwards."""
+    a spec may carry 'alias': the arrays handed to the setter / returned by the getters are scribbled on afterwards;
+    'invalid': the definition is outside the supported parameter range (the call may raise: then the object must be
+    unchanged; if it is accepted the resulting state must still be a cell).
+    Every call into atomman is guarded: what the implementation raises is an observation, reported with the input."""
     import atomman as am
     np = _np()
     done = []
 
     def viol(key, what, **extra):
         ctx.violate(key, what, {'op': 'cell', 'spec': _short(spec), 'points': pts, 'rels': rels,
-                                'mutations': [_short(m) for m in done], 'light': light, **extra})
+                                'mutations': [_short(m) for m in done], 'light': light, 'check_base': check_base, **extra})
 
     try:
-        box = apply_spec_alias(am.Box() if spec.get('via') not in ('ctor', 'family') else None, spec)
+        box, modified = apply_spec_alias(am.Box() if spec.get('via') not in ('ctor', 'family') else None, spec)
     except Exception as e:  # noqa
         viol(f"construct:{spec['kind']}", f"valid cell definition {_short(spec)} raised {type(e).__name__}: {e}")
         return
-    _oracle_box(ctx, box, spec, pts, rels, viol, light=light)
+    if modified:
+        viol('input:setter-modified-argument', f'{_short(spec)}: the array(s) passed as {modified} were modified by the call')
+    if check_base:
+        _guarded(viol, box, f'after {_short(spec)}', lambda: _oracle_box(ctx, box, spec, pts, rels, viol, light=light))
     for m in muts:
         try:
             # make sure every lazily computed quantity exists before the mutation
@@ -1774,50 +1916,97 @@ def oracle_cell(ctx, spec, pts, rels, muts=(), light=False):
             try:
                 m = resolve_perturb(box, m)
             except Exception as e:  # noqa
-                viol('getter:raises', f'reading the parameters of the cell {box.vects.tolist()} raised {type(e).__name__}: {e}')
+                viol('getter:raises', f'reading the parameters of the cell ({_state_repr(box)}) raised {type(e).__name__}: {e}')
                 return
             # points placed relative to the *new* cell would hide nothing, but the old ones may now sit within the
             # rounding bound of a face; the margin test of the oracle handles that
         done.append(m)
+        prev = _raw_state(box)
+        before = None
+        if m.get('invalid'):
+            before = _snapshot(box, np.array(pts, dtype=float), np.array(rels, dtype=float))
         try:
-            box = apply_spec_alias(box, m)
+            box, modified = apply_spec_alias(box, m)
         except Exception as e:  # noqa
+            if m.get('invalid'):
+                # refused: nothing may have been written
+                ctx.stats.case('oracle:rejected', repr(_short(m)))
+                d = _snap_diff(before, _snapshot(box, np.array(pts, dtype=float), np.array(rels, dtype=float)))
+                if d is not None:
+                    viol('state:rejected-setter-changed-object', f'{_short(m)} raised {type(e).__name__} but changed the Box: {d[0]} '
+                         f'was {_fmt(d[1])}, is now {_fmt(d[2])}')
+                    return
+                continue
             viol(f"construct:{m['kind']}", f"valid cell redefinition {_short(m)} raised {type(e).__name__}: {e}")
             return
-        _oracle_box(ctx, box, m, pts, rels, viol, after_mutation=True, light=light)
+        if modified:
+            viol('input:setter-modified-argument', f'{_short(m)}: the array(s) passed as {modified} were modified by the call')
+        if m.get('invalid'):
+            st = _raw_state(box)
+            if st is None or not (np.isfinite(st[0]).all() and np.isfinite(st[1]).all()):
+                viol('construct:non-finite', f'{_short(m)} is accepted and leaves the Box with {_state_repr(box)}')
+                return
+            continue
+        if not _guarded(viol, box, f'after {_short(m)}',
+                        lambda: _oracle_box(ctx, box, m, pts, rels, viol, after_mutation=True, light=light, prev=prev)):
+            return
 
 
 def apply_spec_alias(box, spec):
-    """apply_spec; with spec['alias'] the setter receives numpy arrays which are overwritten *afterwards* (the Box
-    must have copied the values, as `self.__vects[:] = value` does)."""
+    """apply_spec -> (box, names of array arguments the call modified).  With spec['alias'] the setter receives numpy
+    arrays; they must come back unmodified, and are then overwritten (the Box must have copied the values, as
+    `self.__vects[:] = value` does)."""
     np = _np()
     if not spec.get('alias'):
-        return apply_spec(box, spec)
+        return apply_spec(box, spec), []
     sp = dict(spec, kw=dict(spec['kw']))
     sp.pop('container', None)
     held = []
     for key in ('vects', 'avect', 'bvect', 'cvect', 'origin'):
         if key in sp['kw']:
-            arr = np.array(sp['kw'][key], dtype=float)
+            arr = np.array(sp['kw'][key])          # dtype as given (int stays int)
             sp['kw'][key] = arr
-            held.append(arr)
+            held.append((key, arr, arr.copy()))
     out = apply_spec(box, sp)
-    for arr in held:
-        arr[...] = arr * -3.0 + 17.0
-    return out
+    modified = [key for key, arr, orig in held if not np.array_equal(arr, orig)]
+    for key, arr, orig in held:
+        arr[...] = (orig * -3 + 17).astype(arr.dtype)
+    return out, modified
 
 
-def _oracle_box(ctx, box, spec, pts, rels, viol, after_mutation=False, light=False):
+def _oracle_box(ctx, box, spec, pts, rels, viol, after_mutation=False, light=False, prev=None):
     import atomman as am
     np = _np()
+    tag = ' (after a mutation of the same Box object)' if after_mutation else ''
+    st = _raw_state(box)
+    if st is None:
+        viol('getter:raises', f'vects / origin of the Box cannot be read as a 3x3 and a 3-vector after {_short(spec)}: {_state_repr(box)}')
+        return
+    if not (np.isfinite(st[0]).all() and np.isfinite(st[1]).all()):
+        viol('construct:non-finite', f'{_short(spec)} is accepted and leaves the Box with {_state_repr(box)}{tag}')
+        return
     V, o = _fmat(box)
     det = _det3(V)
-    if det <= 0:
-        return      # property quantifies over right-handed non-degenerate cells
+    # what a redefinition must leave alone / reset (needs the state before the call)
+    if spec['kind'] == 'reset':
+        if st[0].tolist() != [[1.0, 0.0, 0.0], [0.0, 1.0, 0.0], [0.0, 0.0, 1.0]] or st[1].tolist() != [0.0, 0.0, 0.0]:
+            viol('construct:reset', f'set() without arguments ("square unit box with origin = [0,0,0]") leaves {_state_repr(box)}{tag}')
+            return
+    if prev is not None and spec['kind'] == 'attr_origin' and spec.get('via') != 'ctor' and not np.array_equal(prev[0], st[0]):
+        viol('construct:attr_origin:vects', f'setting only the origin ({spec.get("via")}, {list(spec["kw"]["origin"])}) changed the vectors from '
+             f'{prev[0].tolist()} to {st[0].tolist()}')
+        return
+    if prev is not None and spec['kind'] == 'attr_vects' and not np.array_equal(prev[1], st[1]):
+        viol('construct:attr_vects:origin', f'assigning box.vects changed the origin from {prev[1].tolist()} to {st[1].tolist()}')
+        return
+    if det == 0:
+        return      # property quantifies over non-degenerate cells
+    left = det < 0  # left-handed: outside the quantifier for the rebuild and inside clauses (a rebuilt cell is right-handed,
+    #                 the six half-spaces of a left-handed cell have no common point); every other clause is a statement
+    #                 about "the vectors" and is evaluated as well
     cond = _impl_cond(box)
     vmax = max(abs(float(x)) for r in V for x in r)
-    tag = ' (after a mutation of the same Box object)' if after_mutation else ''
-    ctx.stats.case('oracle:cell', (repr(_short(spec)), after_mutation), sample={'spec': _short(spec)})
+    ctx.stats.case('oracle:cell' + (':left-handed' if left else ''), (repr(_short(spec)), after_mutation), sample={'spec': _short(spec)})
 
     # -- the defining values come back (construction clause) ------------------------------------------
     kw = spec['kw']
@@ -1916,7 +2105,7 @@ def _oracle_box(ctx, box, spec, pts, rels, viol, after_mutation=False, light=Fal
 
     # -- rebuild through every other parameter set -----------------------------------------------------
     if not light:
-        _oracle_rebuild(ctx, box, V, o, det, normal, cond, vmax, viol, tag)
+        _oracle_rebuild(ctx, box, V, o, det, normal, cond, vmax, viol, tag, left)
 
     # -- the object is determined by its vectors and origin, not by its history --------------------------
     _oracle_twin(ctx, box, spec, pts, rels, viol, tag, after_mutation)
@@ -1941,7 +2130,13 @@ def _oracle_box(ctx, box, spec, pts, rels, viol, after_mutation=False, light=Fal
     # -- conversions: mutual inverses, exact value, container independence ------------------------------
     Vinv = _inv3(V)
     for name in (VARIANTS_ALL if not light else ['array2', VARIANTS[len(pts) % len(VARIANTS)]]):
-        _oracle_points(ctx, box, V, o, Vinv, cond, vmax, rmax, pts, rels, name, viol, tag, spec)
+        _oracle_points(ctx, box, V, o, Vinv, cond, vmax, rmax, pts, rels, name, viol, tag, spec, left)
+    # integer-valued points handed over as python ints / integer arrays (no float dtype anywhere in the argument)
+    ipts = [[float(round(x)) for x in p] for p in pts]
+    irels = [[float(round(x)) for x in p] for p in rels]
+    pick = int(abs(pts[0][0]) * 8 + abs(pts[0][1]) * 64) if pts else 0       # a function of the input only (replayable)
+    for name in ([INT_VARIANTS[pick % 5], INT_VARIANTS[(pick // 5 % 4 + 1 + pick) % 5]] if not light else [INT_VARIANTS[pick % 5]]):
+        _oracle_points(ctx, box, V, o, Vinv, cond, vmax, rmax, ipts, irels, name, viol, tag, spec, left)
 
 
 def _snapshot(box, P, S):
@@ -2019,7 +2214,19 @@ def _oracle_twin(ctx, box, spec, pts, rels, viol, tag, after_mutation):
         if not np.array_equal(np.asarray(cache), want):
             viol('state:cache-incoherent', f'the cached reciprocal vectors of the Box are {np.asarray(cache).tolist()} but its '
                  f'vects are {box.vects.tolist()}, whose inverse-transpose is {want.tolist()}{tag}')
+    P0, S0 = P.copy(), S.copy()
     here, there = _snapshot(box, P, S), _snapshot(twin, P, S)
+    if not (np.array_equal(P, P0) and np.array_equal(S, S0)):
+        viol('input:modified', f'reading the Box (conversions / inside / outside) modified the position arrays it was given: '
+             f'{P0.tolist()} -> {P.tolist()}, {S0.tolist()} -> {S.tolist()} ({_state_repr(box)}){tag}')
+        P, S = P0.copy(), S0.copy()
+    # reading is not writing: the same observations a second time
+    d = _snap_diff(here, _snapshot(box, P, S))
+    if d is not None:
+        k, x, y = d
+        viol('state:read-changes-object', f'reading every getter / conversion once changed the Box: {k} was {_fmt(x)}, is {_fmt(y)} on the second '
+             f'reading; now {_state_repr(box)}{tag}')
+        return
     d = _snap_diff(here, there)
     if d is not None:
         k, x, y = d
@@ -2076,11 +2283,11 @@ def _oracle_twin(ctx, box, spec, pts, rels, viol, tag, after_mutation):
              f'{_fmt(y)} (vects {twin.vects.tolist()}, origin {twin.origin.tolist()}){tag}')
 
 
-def _oracle_rebuild(ctx, box, V, o, det, normal, cond, vmax, viol, tag):
+def _oracle_rebuild(ctx, box, V, o, det, normal, cond, vmax, viol, tag, left=False):
     import atomman as am
     np = _np()
     G = [[_dot(V[i], V[j]) for j in range(3)] for i in range(3)]
-    targets = ['vects', 'vectors', 'abc'] + (['lengths', 'hilos'] if normal else [])
+    targets = ['vects', 'vectors'] + ([] if left else ['abc']) + (['lengths', 'hilos'] if normal else [])
     for t in targets:
         try:
             if t == 'vects':
@@ -2127,25 +2334,48 @@ def _oracle_rebuild(ctx, box, V, o, det, normal, cond, vmax, viol, tag):
                 viol(f'rebuild:{t}:norm', f'cell rebuilt through lengths and angles is not LAMMPS-normal: {b2.vects.tolist()}')
 
 
-def _oracle_points(ctx, box, V, o, Vinv, cond, vmax, rmax, pts, rels, vname, viol, tag, spec):
+def _unchanged(arg, keep):
+    """was an ndarray argument left as it was?"""
+    np = _np()
+    return not isinstance(arg, np.ndarray) or (arg.shape == keep.shape and arg.dtype == keep.dtype and np.array_equal(arg, keep))
+
+
+def _oracle_points(ctx, box, V, o, Vinv, cond, vmax, rmax, pts, rels, vname, viol, tag, spec, left=False):
     np = _np()
     omax = max([abs(float(x)) for x in o] + [0.0])
+
+    def call(what, f, arg):
+        """f(arg) as an array; the caller's array must not be modified by the call.  None if it raised (reported)."""
+        keep = arg.copy() if isinstance(arg, np.ndarray) else None
+        try:
+            out = np.asarray(f(arg))
+        except Exception as e:  # noqa
+            short = {'position_relative_to_cartesian': 'r2c', 'position_cartesian_to_relative': 'c2r', 'outside': 'inside'}.get(what, what)
+            viol(f'{short}:{_container(vname)}-input', f'{what} raised {type(e).__name__}: {e} for {vname} input {_show(arg)} '
+                 f'({_state_repr(box)}){tag}', variant=vname)
+            return None
+        if not _unchanged(arg, keep):
+            viol(f'input:modified:{what}', f'{what}({vname}) modified the array it was given: it was {_show(keep)}, is now {_show(arg)} '
+                 f'({_state_repr(box)}){tag}', variant=vname)
+            arg[...] = keep
+        return out
+
+    def plain(n_used, src):
+        return np.array(src[:n_used], dtype=float).reshape(-1, 3)
+
+    r2c, c2r = box.position_relative_to_cartesian, box.position_cartesian_to_relative
     # relative -> Cartesian -> relative, and values
     _, arg, used = shape_variant(None, rels, vname)
-    ref = None
-    try:
-        cart = np.asarray(box.position_relative_to_cartesian(arg))
-        ref = np.asarray(box.position_relative_to_cartesian(np.array(rels[:used], dtype=float).reshape(-1, 3))).reshape(-1, 3)
-    except Exception as e:  # noqa
-        viol(f'r2c:{_container(vname)}-input', f'position_relative_to_cartesian raised {type(e).__name__}: {e} for {vname} input '
-             f'{_show(arg)}{tag}', variant=vname)
-        cart = None
-    if cart is not None:
+    cart = call('position_relative_to_cartesian', r2c, arg)
+    ref = call('position_relative_to_cartesian', r2c, plain(used, rels)) if cart is not None else None
+    if cart is not None and ref is not None:
         ctx.stats.case('oracle:r2c:' + vname, (repr(rels), vname))
         if cart.shape != np.asarray(arg, dtype=float).shape:
             viol('r2c:shape', f'position_relative_to_cartesian: input shape {np.asarray(arg, dtype=float).shape}, output {cart.shape}',
                  variant=vname)
-        elif not np.array_equal(cart.reshape(-1, 3), ref):
+        elif cart.dtype.kind != 'f':
+            viol('r2c:dtype', f'position_relative_to_cartesian({vname}) returns dtype {cart.dtype}', variant=vname)
+        elif not np.array_equal(cart.reshape(-1, 3), ref.reshape(-1, 3)):
             viol('r2c:container', f'position_relative_to_cartesian gives different values for {vname} input and (n,3) array '
                  f'input: {cart.reshape(-1, 3).tolist()} vs {ref.tolist()}', variant=vname)
         else:
@@ -2157,33 +2387,28 @@ def _oracle_points(ctx, box, V, o, Vinv, cond, vmax, rmax, pts, rels, vname, vio
                     viol('r2c:value', f'position_relative_to_cartesian({s}) = {c}, exact value {[float(w) for w in want]} for vects '
                          f'{box.vects.tolist()}, origin {box.origin.tolist()}{tag}', variant=vname)
                     break
-            try:
-                back = np.asarray(box.position_cartesian_to_relative(cart)).reshape(-1, 3).tolist()
-                for s, bk in zip(rels[:used], back):
+            back = call('position_cartesian_to_relative', c2r, cart)
+            if back is not None and back.shape == cart.shape:
+                for s, bk in zip(rels[:used], back.reshape(-1, 3).tolist()):
                     sm = max(abs(x) for x in s)
                     tol = SAFETY * U * cond * 3 * (3 * sm * vmax + 2 * omax + vmax) * rmax
-                    if any(abs(bk[j] - s[j]) > tol for j in range(3)):
+                    if any(not abs(bk[j] - s[j]) <= tol for j in range(3)):
                         viol('roundtrip:rel-cart-rel' + (':after-mutation' if tag else ''),
                              f'cartesian_to_relative(relative_to_cartesian({s})) = {bk} for vects '
                              f'{box.vects.tolist()}, origin {box.origin.tolist()}{tag}', variant=vname)
                         break
-            except Exception as e:  # noqa
-                viol('c2r:array-input', f'position_cartesian_to_relative raised {type(e).__name__}: {e} for an array{tag}')
     # Cartesian -> relative -> Cartesian, values, inside/outside
     _, arg, used = shape_variant(None, pts, vname)
-    try:
-        rel = np.asarray(box.position_cartesian_to_relative(arg))
-    except Exception as e:  # noqa
-        viol(f'c2r:{_container(vname)}-input', f'position_cartesian_to_relative raised {type(e).__name__}: {e} for {vname} input '
-             f'{_show(arg)} (vects {box.vects.tolist()}){tag}', variant=vname)
-        rel = None
-    if rel is not None:
+    rel = call('position_cartesian_to_relative', c2r, arg)
+    ref = call('position_cartesian_to_relative', c2r, plain(used, pts)) if rel is not None else None
+    if rel is not None and ref is not None:
         ctx.stats.case('oracle:c2r:' + vname, (repr(pts), vname))
-        ref = np.asarray(box.position_cartesian_to_relative(np.array(pts[:used], dtype=float).reshape(-1, 3))).reshape(-1, 3)
         if rel.shape != np.asarray(arg, dtype=float).shape:
             viol('c2r:shape', f'position_cartesian_to_relative: input shape {np.asarray(arg, dtype=float).shape}, output {rel.shape}',
                  variant=vname)
-        elif not np.array_equal(rel.reshape(-1, 3), ref):
+        elif rel.dtype.kind != 'f':
+            viol('c2r:dtype', f'position_cartesian_to_relative({vname}) returns dtype {rel.dtype}', variant=vname)
+        elif not np.array_equal(rel.reshape(-1, 3), ref.reshape(-1, 3)):
             viol('c2r:container', f'position_cartesian_to_relative gives different values for {vname} input and (n,3) array '
                  f'input: {rel.reshape(-1, 3).tolist()} vs {ref.tolist()}', variant=vname)
         else:
@@ -2191,44 +2416,50 @@ def _oracle_points(ctx, box, V, o, Vinv, cond, vmax, rmax, pts, rels, vname, vio
                 want = [sum((_F(p[i]) - o[i]) * Vinv[i][j] for i in range(3)) for j in range(3)]
                 pm = max(abs(x) for x in p) + omax + vmax
                 tol = SAFETY * U * cond * 3 * pm * rmax
-                if any(abs(s[j] - float(want[j])) > tol for j in range(3)):
+                if any(not abs(s[j] - float(want[j])) <= tol for j in range(3)):
                     viol('c2r:value' + (':after-mutation' if tag else ''),
                          f'position_cartesian_to_relative({p}) = {s}, exact value {[float(w) for w in want]} for vects '
                          f'{box.vects.tolist()}, origin {box.origin.tolist()}{tag}', variant=vname)
                     break
-            try:
-                back = np.asarray(box.position_relative_to_cartesian(rel)).reshape(-1, 3).tolist()
-                for p, bk in zip(pts[:used], back):
+            back = call('position_relative_to_cartesian', r2c, rel)
+            if back is not None and back.shape == rel.shape:
+                for p, bk in zip(pts[:used], back.reshape(-1, 3).tolist()):
                     pm = max(abs(x) for x in p) + omax + vmax
                     tol = SAFETY * U * cond * 9 * pm * rmax * vmax
-                    if any(abs(bk[j] - p[j]) > tol for j in range(3)):
+                    if any(not abs(bk[j] - p[j]) <= tol for j in range(3)):
                         viol('roundtrip:cart-rel-cart', f'relative_to_cartesian(cartesian_to_relative({p})) = {bk} for vects '
                              f'{box.vects.tolist()}, origin {box.origin.tolist()}{tag}', variant=vname)
                         break
-            except Exception as e:  # noqa
-                viol('r2c:array-input', f'position_relative_to_cartesian raised {type(e).__name__}: {e} for an array{tag}')
     # inside / outside against exact relative coordinates
     orth = all(V[i][j] == 0 for i in range(3) for j in range(3) if i != j) \
         and all(_dyadic(x, 3, 64) for r in V for x in r) and all(_dyadic(x, 3, 64) for x in o) \
         and all(_dyadic(x) for p in pts for x in p)
+    want_shape = np.asarray(arg, dtype=float).shape[:-1]
     for incl in (True, False):
-        try:
-            ins = np.asarray(box.inside(arg, inclusive=incl))
-            outs = np.asarray(box.outside(arg, inclusive=not incl))
-            ins_default = np.asarray(box.inside(arg)) if incl else None
-        except Exception as e:  # noqa
-            viol(f'inside:{_container(vname)}-input', f'inside/outside raised {type(e).__name__}: {e} for {vname} input{tag}', variant=vname)
+        ins = call('inside', lambda a: box.inside(a, inclusive=incl), arg)
+        outs = call('outside', lambda a: box.outside(a, inclusive=not incl), arg)
+        dflt = incl and vname in ('array2', 'list', 'single-list', 'single-array', 'int-array', 'int-single', 'empty')
+        ins_default = call('inside', box.inside, arg) if dflt else ins
+        outs_default = call('outside', box.outside, arg) if dflt else outs
+        if ins is None or outs is None or ins_default is None or outs_default is None:
             break
-        want_shape = np.asarray(arg, dtype=float).shape[:-1]
         if ins.shape != want_shape or outs.shape != want_shape:
             viol('inside:shape', f'inside/outside: points of leading shape {want_shape} give result shapes {ins.shape}/{outs.shape}',
                  variant=vname)
             break
+        if ins.dtype != bool or outs.dtype != bool:
+            viol('inside:dtype', f'inside / outside of {vname} input {_show(arg)} return {ins.dtype} / {outs.dtype} values '
+                 f'({ins.tolist()!r} / {outs.tolist()!r}), not booleans{tag}', variant=vname)
+            break
         if not np.array_equal(outs, ~ins):
             viol('outside:complement', f'outside(pos, inclusive={not incl}) is not the complement of inside(pos, inclusive={incl}) '
                  f'for {pts[:used]}', variant=vname)
-        if ins_default is not None and not np.array_equal(ins_default, ins):
+        if dflt and not np.array_equal(ins_default, ins):
             viol('inside:default', 'inside(pos) differs from inside(pos, inclusive=True)', variant=vname)
+        if dflt and not np.array_equal(outs_default, outs):
+            viol('outside:default', 'outside(pos) differs from outside(pos, inclusive=False)', variant=vname)
+        if left:
+            continue
         for p, got in zip(pts[:used], ins.reshape(-1).tolist()):
             s = [sum((_F(p[i]) - o[i]) * Vinv[i][j] for i in range(3)) for j in range(3)]
             margin = min(min(abs(x), abs(1 - x)) for x in s)
@@ -2279,38 +2510,133 @@ def _search_disagreements(ctx):
             m.setdefault('regime', 'float')
             if m.get('via') in ('ctor', 'family') and m is not first:
                 m['via'] = 'set'
-        oracle_cell(ctx, first, pts, rels, muts)
+        _run_cell(ctx, first, pts, rels, muts)
+
+
+INVALID_DEFS = [
+    {'kind': 'lengths', 'via': 'method', 'kw': {'lx': 0.0, 'ly': 1.0, 'lz': 1.0}},
+    {'kind': 'lengths', 'via': 'set', 'kw': {'lx': 1.0, 'ly': -2.0, 'lz': 1.0, 'xy': 0.5}},
+    {'kind': 'lengths', 'via': 'method', 'kw': {'lx': 1.0, 'ly': 2.0, 'lz': 0.0, 'origin': [1.0, 1.0, 1.0]}},
+    {'kind': 'hilos', 'via': 'method', 'kw': {'xlo': 1.0, 'xhi': 1.0, 'ylo': 0.0, 'yhi': 1.0, 'zlo': 0.0, 'zhi': 1.0}},
+    {'kind': 'hilos', 'via': 'set', 'kw': {'xlo': 0.0, 'xhi': 1.0, 'ylo': 2.0, 'yhi': 1.0, 'zlo': 0.0, 'zhi': 1.0, 'yz': 0.25}},
+    {'kind': 'abc', 'via': 'method', 'kw': {'a': 1.0, 'b': 2.0, 'c': 3.0, 'alpha': 0.0, 'beta': 90.0, 'gamma': 90.0}},
+    {'kind': 'abc', 'via': 'set', 'kw': {'a': 1.0, 'b': 2.0, 'c': 3.0, 'alpha': 90.0, 'beta': 180.0, 'gamma': 90.0}},
+    {'kind': 'abc', 'via': 'method', 'kw': {'a': 1.0, 'b': 2.0, 'c': 3.0, 'alpha': 90.0, 'beta': 90.0, 'gamma': 190.0}},
+    {'kind': 'abc', 'via': 'method', 'kw': {'a': 1.0, 'b': 2.0, 'c': 3.0, 'alpha': 60.0, 'beta': 60.0, 'gamma': 150.0}},
+    {'kind': 'abc', 'via': 'set', 'kw': {'a': 1.0, 'b': 2.0, 'c': 3.0, 'alpha': 20.0, 'beta': 140.0, 'gamma': 100.0, 'origin': [0.5, 0.25, 1.0]}},
+    {'kind': 'abc', 'via': 'method', 'kw': {'a': 2.5, 'b': 1.5, 'c': 3.0, 'alpha': 100.0, 'beta': 120.0, 'gamma': 140.5}},
+]
+
+# every way of re-defining an existing Box: (kind, via, with the optional origin?)
+REDEFINITIONS = [(k, v, o) for k in ('vectors', 'lengths', 'abc') for v in ('set', 'method') for o in (True, False)] \
+    + [('vects', 'set', True), ('vects', 'set', False), ('vects', 'method', True), ('vects', 'method', False),
+       ('hilos', 'set', None), ('hilos', 'method', None), ('reset', 'set', None),
+       ('attr_origin', 'set', True), ('attr_origin', 'attr', True), ('attr_vects', 'attr', None)]
+
+
+def gen_redefinition(rng, regime, kind, via, with_origin):
+    """one re-definition of an existing Box through the given keyword family / method, with or without `origin`."""
+    if kind == 'reset':
+        return {'kind': 'reset', 'via': 'set', 'kw': {}, 'regime': regime}
+    if kind == 'attr_origin':
+        o = [(_dy(rng, -8, 8) if regime == 'grid' else rng.uniform(-8, 8)) for _ in range(3)]
+        return {'kind': 'attr_origin', 'via': via, 'kw': {'origin': o}, 'regime': regime}
+    if kind == 'attr_vects':
+        v = gen_spec(rng, regime, kinds=['vects'], ints=False)['kw']['vects']
+        return {'kind': 'attr_vects', 'via': 'attr', 'kw': {'vects': v}, 'regime': regime, 'container': rng.choice(['list', 'array'])}
+    m = gen_spec(rng, regime, kinds=[kind], origin=bool(with_origin), nonzero_origin=True)
+    if m.get('via') == 'family':
+        m.pop('family', None)
+        m.pop('fargs', None)
+    m['via'] = via
+    return m
+
+
+def _place(rng, spec, regime, n):
+    """points for a cell definition: built once on a throw-away Box (only to place the points)."""
+    import atomman as am
+    tmp = apply_spec(am.Box() if spec.get('via') not in ('ctor', 'family') else None, spec)
+    V, o = _fmat(tmp)
+    if _det3(V) == 0:
+        raise ValueError('singular cell generated')
+    pts = gen_points(rng, V, o, regime, n)
+    rels = [[(_dy(rng, -2, 2) if regime == 'grid' else rng.uniform(-2, 2)) for _ in range(3)] for _ in range(n)]
+    return pts, rels
+
+
+def _run_cell(ctx, spec, pts, rels, muts, light=False, check_base=True):
+    """oracle_cell with a last line of defence: nothing that happens while the clauses are evaluated may abort the
+    search (the guards inside report what the implementation did; this reports what they did not foresee)."""
+    try:
+        oracle_cell(ctx, spec, pts, rels, muts, light=light, check_base=check_base)
+    except Exception as e:  # noqa
+        import traceback
+        tb = traceback.extract_tb(e.__traceback__)
+        where = '; '.join(f'{fr.name}:{fr.lineno}' for fr in tb[-3:])
+        ctx.violate('oracle:exception', f'evaluating the clauses of C01 on {_short(spec)} followed by '
+                    f'{[_short(m) if "perturb" not in m else m for m in muts]} ended in {type(e).__name__}: {e} ({where})',
+                    {'op': 'cell', 'spec': _short(spec), 'points': pts, 'rels': rels,
+                     'mutations': [_short(m) for m in muts if 'perturb' not in m], 'light': light})
+
+
+def _search_redefinitions(ctx, rng, nbase):
+    """An EXISTING Box (non-zero origin, non-unit cell, every lazily computed quantity warm) re-defined through every
+    set_* method / Box.set keyword family / attribute setter, WITH and WITHOUT the optional origin: the result must be
+    the cell just asked for — origin as given or the documented default (0,0,0), vectors as a new Box() given the same
+    definition has them — whatever the object was before; set() is the unit cell at the origin; origin alone leaves
+    the vectors, vects alone leaves the origin.  Then definitions outside the supported range: if refused, nothing
+    may have changed; if accepted, the state must still consist of numbers."""
+    for it in range(nbase):
+        regime = 'grid' if it % 2 == 0 else 'float'
+        base = gen_spec(rng, regime, origin=(it % 5 != 4), nonzero_origin=True,
+                        kinds=[['vects', 'vectors', 'lengths', 'hilos', 'abc'][it % 5]])
+        try:
+            pts, rels = _place(rng, base, regime, 3)
+        except Exception as e:  # noqa
+            ctx.violate(f"construct:{base['kind']}", f'valid cell definition {_short(base)} raised {type(e).__name__}: {e}',
+                        {'op': 'cell', 'spec': _short(base), 'points': [], 'rels': [], 'mutations': []})
+            continue
+        order = list(REDEFINITIONS)
+        rng.shuffle(order)
+        first = True
+        for (kind, via, with_origin) in order:
+            m = gen_redefinition(rng, regime, kind, via, with_origin)
+            if rng.random() < 0.25 and kind not in ('reset',):
+                m['alias'] = True
+            ctx.stats.case('oracle:redefine', (kind, via, with_origin, base['kind'], it))
+            _run_cell(ctx, base, pts, rels, [m], light=True, check_base=first)
+            first = False
+        bad = [dict(b, regime=regime, invalid=True) for b in rng.sample(INVALID_DEFS, 4)]
+        _run_cell(ctx, base, pts, rels, bad, light=True, check_base=False)
 
 
 def search(ctx, broken):
     if ctx.disagreements:
-        _search_disagreements(ctx)
+        try:
+            _search_disagreements(ctx)
+        except Exception as e:  # noqa
+            ctx.notes.append(f'replaying the correspondence disagreements through the clause oracle failed: {type(e).__name__}: {e}')
     rng = random.Random(ctx.seed * 7919 + 17)
+    _search_redefinitions(ctx, rng, ctx.n(8, 160) * (2 if broken else 1))
     N = ctx.n(60, 1200) * (3 if broken else 1)
     for it in range(N):
         regime = 'grid' if it % 2 == 0 else 'float'
         kinds = ['lengths', 'hilos'] if it % 7 == 0 else None
-        spec = gen_spec(rng, regime, kinds=kinds)
+        spec = gen_spec(rng, regime, kinds=kinds, allow_left=(it % 9 == 4))
         if kinds:
             for t in ('xy', 'xz', 'yz'):
                 spec['kw'].pop(t, None)
-        # points need the cell: build it once in exact arithmetic from a throw-away Box (only to place points)
         try:
-            import atomman as am
-            tmp = apply_spec(am.Box() if spec.get('via') not in ('ctor', 'family') else None, spec)
-            V, o = _fmat(tmp)
+            pts, rels = _place(rng, spec, regime, 6)
         except Exception as e:  # noqa
             ctx.violate(f"construct:{spec['kind']}", f'valid cell definition {_short(spec)} raised {type(e).__name__}: {e}',
                         {'op': 'cell', 'spec': _short(spec), 'points': [], 'rels': [], 'mutations': []})
             continue
-        n = 6
-        pts = gen_points(rng, V, o, regime, n)
-        rels = [[(_dy(rng, -2, 2) if regime == 'grid' else rng.uniform(-2, 2)) for _ in range(3)] for _ in range(n)]
         muts = []
         for _ in range(rng.randint(0, 2)):
             r = rng.random()
             if r < 0.3:
-                v = gen_spec(rng, regime, kinds=['vects'])['kw']['vects']
+                v = gen_spec(rng, regime, kinds=['vects'], allow_left=rng.random() < 0.1)['kw']['vects']
                 muts.append({'kind': 'attr_vects', 'via': 'attr', 'kw': {'vects': v}, 'regime': regime})
             elif r < 0.6:
                 muts.append(gen_perturb(rng))
@@ -2322,26 +2648,22 @@ def search(ctx, broken):
         for m in [spec] + muts:
             if 'perturb' not in m and m.get('via') != 'family' and rng.random() < 0.3:
                 m['alias'] = True
-        oracle_cell(ctx, spec, pts, rels, muts)
+        _run_cell(ctx, spec, pts, rels, muts)
     # chains of small changes on one object whose lazily computed quantities are all warm
     for it in range(ctx.n(60, 1500) * (3 if broken else 1)):
         spec = gen_spec(rng, 'float')
         if rng.random() < 0.5:
             spec = scale_spec(spec, 2.0 ** rng.choice([-30, -24, -10, 10, 20, 30]))
         try:
-            import atomman as am
-            tmp = apply_spec(am.Box() if spec.get('via') not in ('ctor', 'family') else None, spec)
-            V, o = _fmat(tmp)
+            pts, rels = _place(rng, spec, 'float', 5)
         except Exception as e:  # noqa
             ctx.violate(f"construct:{spec['kind']}", f'valid cell definition {_short(spec)} raised {type(e).__name__}: {e}',
                         {'op': 'cell', 'spec': _short(spec), 'points': [], 'rels': [], 'mutations': []})
             continue
-        pts = gen_points(rng, V, o, 'float', 5)
-        rels = [[rng.uniform(-2, 2) for _ in range(3)] for _ in range(5)]
         eps0 = 10 ** rng.uniform(-15, -4)
         muts = [gen_perturb(rng, eps=(rng.choice([-1, 1]) * eps0 if rng.random() < 0.6 else None))
                 for _ in range(rng.randint(2, 4))]
-        oracle_cell(ctx, spec, pts, rels, muts, light=True)
+        _run_cell(ctx, spec, pts, rels, muts, light=True)
 
 
 def replay(ctx, payload):
@@ -2351,8 +2673,8 @@ def replay(ctx, payload):
         spec.setdefault('regime', 'float')
         muts = [dict(m, regime=m.get('regime', 'float')) for m in r.get('mutations', [])]
         print('replay cell', spec)
-        oracle_cell(ctx, spec, r['points'] or [[0.25, 0.5, 0.75]], r['rels'] or [[0.25, 0.5, 0.75]], muts,
-                    light=bool(r.get('light')))
+        _run_cell(ctx, spec, r['points'] or [[0.25, 0.5, 0.75]], r['rels'] or [[0.25, 0.5, 0.75]], muts,
+                  light=bool(r.get('light')), check_base=bool(r.get('check_base', True)))
         for v in ctx.violations:
             print('  still fails:', v.what[:300])
         if not ctx.violations:
